@@ -46,11 +46,13 @@ def _guarded_check(s, timeout_ms):
         return z3.unknown
 
 
-def check(assertions, timeout_ms=None, want_model=True, try_cvc5=True, single=False):
+def check(assertions, timeout_ms=None, want_model=True, try_cvc5=True, single=False, rlimit=None):
     """Decide satisfiability of the conjunction. Returns Verdict."""
     t0 = time.time()
     s = z3.Solver()
     s.set('timeout', timeout_ms or Z3_TIMEOUT_MS)
+    if rlimit:
+        s.set('rlimit', rlimit)     # deterministic budget: verdicts do not flip under machine load
     for a in assertions:
         s.add(a)
     r = _guarded_check(s, timeout_ms or Z3_TIMEOUT_MS)
